@@ -1098,6 +1098,11 @@ def rule_random_graph(F, R):
             adj = a[('in', '(vertex_map[v1],vertex_map[v2])', 'edges')] or a[('in', '(vertex_map[v2],vertex_map[v1])', 'edges')]
             return diffv and (diffc or not adj)
         truth_table(R, G + 'augment_colors', 'product-graph edge', sites, spec, t['span']['loc'], t=t, roles=roles)
+        for (call, _) in sites:
+            a_ = Atomizer(t, roles).norm(call['args'][1])
+            okq = a_ in ('(v1,v2)', '(v2,v1)')
+            R.count('L:colour-pushed-pairs'); R.obligation(okq, 'L colour pushed pair')
+            if not okq: R.violation(G + 'augment_colors / L / product-graph edge ends', 'L', 'the edge added for a pair of product vertices must join the two vertices of the pair; pushed %s' % a_, call['loc'])
         # ... and every unordered pair of product vertices is looked at: for the i-th vertex the partners are the whole list, or its tail
         # from i or i + 1 on (`vertices.get((i + 1)..)`); a tail that starts later (or a head) leaves pairs out
         okp = True; whyp = ''          # another way of walking the pairs (`while let Some((v1, rest)) = remaining.split_first()`) is not read: only a tail that can be seen to start too late is reported
